@@ -74,7 +74,7 @@ GET = [b'none', b'miss', b'err', b'timeout', b'garbage', b'truncated', b'badobj'
        # faults DURING the request: a genuine hit, then the entry file is damaged before it is read
        b'hit_trunc', b'hit_overwrite', b'hit_unlink']
 DURING = (b'hit_trunc', b'hit_overwrite', b'hit_unlink')
-PUT = [b'none', b'err', b'toolarge', b'ro'] + ([b'panic'] if put_panic_handled() else [])
+PUT = [b'none', b'err', b'toolarge', b'ro', b'wfail'] + ([b'panic'] if put_panic_handled() else [])
 CCS = [b'default', b'recache', b'nocache']
 CLASSES = [b'compile', b'unsupported', b'vanished', b'notcompile', b'cannotcache', b'cannotcache2', b'noargs']
 NOF = [b'none', b'none', b'none', b'none', b'none']
@@ -349,6 +349,36 @@ def gen_forge(tier):
     return out
 
 
+def gen_leaks(tier):
+    """Stores that fail AFTER their reservation (the write to the temporary file fails, as on a full disk), many times
+    in a row, against a SMALL cache (room for four entries); then the fault is gone: a miss must store, the repeat must
+    hit — a leaked reservation would have filled the cache for good.  One unit only (eviction is not modelled)."""
+    out = []
+    for ppmode in (3, 2):
+        for t in (0, 3):
+            for k in ((1, 3, 5, 8) if tier != 'thorough' else range(1, 13)):
+                fail = req(t, cc=b'recache', f=F(put=b'wfail'))
+                out.append([ppmode, [ORC_OK] * 4, [req(t)] + [fail] * k + [req(t), req(t), req(t, cc=b'recache'), req(t), req(t)]])
+                out.append([ppmode, [ORC_OK] * 4, [fail] * k + [req(t), req(t), req(t)]])
+                out.append([ppmode, [ORC_OK] * 4, [req(t, f=F(put=b'wfail'))] * k + [req(t), req(t)]])
+    return out
+
+
+def gen_twins(tier):
+    """Two stores of the SAME key in flight at once (concurrent forced-recache requests of one unit), the write of one
+    of them fails after both reserved, the other commits; then fault-free requests must hit / re-populate."""
+    out = []
+    for ppmode in (1, 0, 3):
+        for t in (0, 1, 2, 3):
+            tail = [req(t), req(t), req(t, cc=b'recache'), req(t)]
+            out.append([ppmode, [ORC_OK] * 4, [[b'twin', t]] + tail])
+            out.append([ppmode, [ORC_OK] * 4, [req(t), [b'twin', t], [b'twin', t]] + tail])
+            if ppmode < 2:
+                o = (t + 1) % NTU
+                out.append([ppmode, [ORC_OK] * 4, [req(o), [b'twin', t], req(o), req(o)] + tail])
+    return out
+
+
 def gen_first_touch(tier):
     """The cache directory is unusable exactly when a (re)started server first touches its stores, is repaired later;
     then a miss must store and the repeat must hit — for a cache that was empty, populated, read-only."""
@@ -574,6 +604,11 @@ def monitor(case, out):
         elif kind == b'disk':
             settled[st[3]] = False
             prev_good = ob[1][0]
+        elif kind == b'twin':
+            for j, res in enumerate(ob[1]):
+                vs += check_result(st[1], orcs[st[1]], req(st[1], cc=b'recache'), res, 'step %d.%d' % (i, j))
+            settled[st[1]] = False
+            prev_good = ob[4][0]
         elif kind == b'poke':
             settled[st[1]] = False
             poked[st[1]] = True
@@ -608,7 +643,7 @@ def nontrivial(case, out):
             st = st[1]
         if st[0] == b'req' and (st[5] != NOF or st[4] == 0):
             return True
-        if st[0] in (b'disk', b'restart', b'restart_broken', b'restart_distfail', b'poke', b'ppforge'):
+        if st[0] in (b'disk', b'restart', b'restart_broken', b'restart_distfail', b'poke', b'ppforge', b'twin'):
             return True
     return False
 
@@ -681,10 +716,10 @@ def compare(m, i):
 def legs(tier):
     def gen(rng, tier):
         if tier == 'thorough':
-            return (gen_table(tier) + gen_flips(tier) + gen_pokes(tier) + gen_forge(tier) + gen_first_touch(tier)
-                    + with_tails(gen_histories(rng, 20000, 16)) + gen_midzero(rng, 2000))
-        return (gen_table(tier) + gen_flips(tier) + gen_pokes(tier) + gen_forge(tier) + gen_first_touch(tier)
-                + with_tails(gen_histories(rng, 2500, 14)) + gen_midzero(rng, 150))
+            return (gen_table(tier) + gen_flips(tier) + gen_pokes(tier) + gen_forge(tier) + gen_leaks(tier) + gen_twins(tier)
+                    + gen_first_touch(tier) + with_tails(gen_histories(rng, 20000, 16)) + gen_midzero(rng, 2000))
+        return (gen_table(tier) + gen_flips(tier) + gen_pokes(tier) + gen_forge(tier) + gen_leaks(tier) + gen_twins(tier)
+                + gen_first_touch(tier) + with_tails(gen_histories(rng, 2500, 14)) + gen_midzero(rng, 150))
     return [Leg('reqsm', gen, monitor=monitor, compare=compare, nontrivial=nontrivial, shrink=shrink, neighbours=neighbours, stats=stats,
                 rule='single-request table: every reachable cache state (empty, warm, entry garbage/truncated/deleted/damaged in '
                      'place inside a member, cache directory unusable at first use and repaired, '
